@@ -28,7 +28,7 @@ use tokio::sync::{mpsc, oneshot};
 use tokio::task::JoinSet;
 
 use crate::config::ConfigPath;
-use crate::roto_runtime::types::{explode_announcements, explode_withdrawals, FreshRouteContext, MrtContext, Provenance, RouteContext};
+use crate::roto_runtime::types::{explode_update, FreshRouteContext, MrtContext, Provenance, RouteContext};
 use crate::common::unit::UnitActivity;
 use crate::comms::{GateStatus, Terminated};
 use crate::ingress::{self, IngressId, IngressInfo};
@@ -217,8 +217,7 @@ impl MrtInRunner {
             BgpMsg::Update(upd) => {
                 let received = std::time::Instant::now();
                 let mut payloads = SmallVec::new();
-                let rr_reach = explode_announcements(&upd)?;
-                let rr_unreach = explode_withdrawals(&upd)?;
+                let (rr_reach, rr_unreach) = explode_update(&upd)?;
 
                 announcements_sent += rr_reach.len();
                 withdrawals_sent += rr_unreach.len();
